@@ -204,8 +204,13 @@ def run(facts):
                     n_sinks += 1
                     src = canon(eb.operand(s["rv"]["op"], (bi, si)))
                     ok = False
+                    # `match chunk.get(..SIZE) { Some(src) => *(src as *const [u8; SIZE]) .. }`: the payload of a checked re-slice
+                    for x in walk(src):
+                        if x[0] == "variant" and x[2] == "Some" and is_call(x[1], "get") and len(x[1][2]) == 2 \
+                                and isinstance(x[1][2][1], tuple) and x[1][2][1][0] == "agg" and "RangeTo" in str(x[1][2][1][1]):
+                            ok = True
                     # closure parameter `src` of `.get(..SIZE).map(|src| ..)`: the enclosing call site is checked below
-                    if b.kind == "closure":
+                    if not ok and b.kind == "closure":
                         pb = facts.by_did.get(b.parent_did)
                         if pb is not None:
                             peb = ExprBuilder(pb, facts, inline=False)
